@@ -445,8 +445,7 @@ pub fn gen_history(seed: u64, restrict: &Restrict) -> Plan {
 
 // ===================================================================== exhaustive sub-spaces
 
-/// Widths small enough to enumerate every value / every short input.
-pub const SMALL_WIDTHS: &[usize] = &[0, 1, 2, 3, 7, 8, 12, 13];
+pub use crate::widths::SMALL_WIDTHS;
 
 /// (arm, flavour, postgres type or 0, bits) for every supported combination at the small widths.
 fn small_combos() -> &'static Vec<(&'static ArmInfo, u32, u64, usize)> {
